@@ -22,7 +22,7 @@
 (*                   "notnot"    : not (self.x is not None) or cmp                                       *)
 (*                   "other"     : self.y is None or cmp           (guard on a DIFFERENT property)       *)
 (*                   "othernot"  : not (self.y is not None) or cmp                                       *)
-(*                   "isnone3"   : self.x is None or len(self.x) == 99 or cmp   (a chained disjunction)   *)
+(*                   "isnone3"   : self.x is None or self.y is None or cmp   (a chained disjunction)   *)
 (*   [k |-> "pat", ids |-> <<p1, ..>>, g, ...]   is_p1(X) and is_p2(X) ...  (pattern verification calls) *)
 (*   [k |-> "set", ids |-> <<s1, ..>>, g, ...]   X in S1 and X in S2 ...    (constant sets)              *)
 (*                                                                                                       *)
@@ -45,7 +45,7 @@ Slots    == {"v", "i"}
 
 SameGuards    == {"isnone", "notnot"}      \* guard names x itself
 ForeignGuards == {"other", "othernot"}     \* guard names another property
-ChainedGuards == {"isnone3"}               \* self.x is None or len(self.x) == 99 or cmp : THREE disjuncts, not a documented form
+ChainedGuards == {"isnone3"}               \* self.x is None or self.y is None or cmp : THREE disjuncts, not a documented form
 
 LenAtom(op, c, side, g, form) == [k |-> "len", op |-> op, c |-> c, side |-> side, g |-> g, form |-> form, ids |-> <<>>]
 PatAtom(ids, g) == [k |-> "pat", op |-> "", c |-> 0, side |-> "L", g |-> g, form |-> "const", ids |-> ids]
@@ -112,11 +112,11 @@ LenBody(a, n, nval) ==
 
 \* truth of the whole invariant for an instance whose x is PRESENT with length n
 \* (a guard on x itself is then false, so the body decides; a guard on y decides when y is None)
-HoldsLen(a, n, yNone, nval) == (a.g \in ForeignGuards /\ yNone) \/ LenBody(a, n, nval)
+HoldsLen(a, n, yNone, nval) == (a.g \in ForeignGuards \cup ChainedGuards /\ yNone) \/ LenBody(a, n, nval)
 
 \* a pattern / set atom on a present value: s a string, lit a literal token
-HoldsPat(a, s, yNone) == (a.g \in ForeignGuards /\ yNone) \/ \A p \in Range(a.ids) : Matches(p, s)
-HoldsSet(a, lit, yNone) == (a.g \in ForeignGuards /\ yNone) \/ \A z \in Range(a.ids) : lit \in SetDef(z)
+HoldsPat(a, s, yNone) == (a.g \in ForeignGuards \cup ChainedGuards /\ yNone) \/ \A p \in Range(a.ids) : Matches(p, s)
+HoldsSet(a, lit, yNone) == (a.g \in ForeignGuards \cup ChainedGuards /\ yNone) \/ \A z \in Range(a.ids) : lit \in SetDef(z)
 
 -------------------------------------------------------------------------------
 (* Recognised forms.                                                                                     *)
